@@ -21,7 +21,8 @@ var primKinds = []string{"sphere", "box", "rounded-box", "capsule", "rounded-con
 func Spec() *run.Spec {
 	return &run.Spec{
 		ID: "C19", Level: "exploration",
-		Rule: "A primitive case is one random parameter set of one of the 7 primitives (sizes 10^-2…10^2, offsets up to 100, all parameter regimes: " +
+		Rule: "A primitive case is one random parameter set of one of the 7 primitives (nominal size 10^-2…10^2 in half of the cases, 10^-9…10^9 in the other half; every further parameter — segment length, radii, box extents, rounding, cap heights — " +
+			"drawn independently down to 10^-6 of it: length ≪ radius … radius ≪ length; offsets up to 100 sizes; end points on a dyadic grid in a quarter of the cones/capsules so that a+k/8·(b-a) is exactly on the axis; all parameter regimes: " +
 			"r1<r2, r1=r2, r1>r2, steep cones, slabs/rods, zero/large rounding …) evaluated at ~2 000 points: uniform around the solid, near-surface, far, " +
 			"on the surface (bisection of the reference), and at the places where the closed forms switch branch (face planes, cap planes, axis, tangent cones) " +
 			"plus ~1 000 point pairs (random, near |p-q|≈1e-3…1e-6, straddling every branch border). An operator case is a random expression tree of " +
@@ -33,7 +34,7 @@ func Spec() *run.Spec {
 			"Distinct = distinct (kind, parameter regime) resp. operator-tree shapes.",
 		Assumptions: []string{
 			"admissible parameters only: radii, sizes > 0; rounded cone |r1-r2| < 0.95·|b-a| (outside it is not a distance function, DESIGN §0); rounded cylinder topHeight < 2·radius; plane normal of unit length",
-			"tolerance 1e-9·max(1, parameter and sample magnitudes): sign is only demanded where the reference margin exceeds it; Lipschitz bound is (1+1e-9)|p-q| + 1e-12·magnitude",
+			"tolerances are relative, without absolute floor: 1e-9·max(radius of the solid, parameter and sample magnitudes): sign is only demanded where the reference margin exceeds it; Lipschitz bound is (1+1e-9)|p-q| + 1e-12·magnitude; a NaN/Inf value is always a violation",
 			"rounded cylinder uses polyform's parameter meaning (core radius 2·radius-topHeight, half height bodyHeight, inflated by topHeight)",
 			"Subtract is undecided where the subtracted operand is exactly 0",
 		},
@@ -42,9 +43,9 @@ func Spec() *run.Spec {
 			"sign_checks_inside": 500000, "sign_checks_outside": 500000, "surface_points": 100000, "euclid_comparisons": 500000,
 			"lipschitz_pairs_random": 200000, "lipschitz_pairs_near": 200000, "lipschitz_pairs_straddling": 200000,
 			"operator_node_checks": 200000, "translate_checks": 50000, "composite_points_inside": 20000, "composite_points_outside": 20000,
-			"varying_line_points": 20000, "primitive_kinds": 7, "operators": 5, "parameter_regimes": 25,
+			"varying_line_points": 20000, "primitive_kinds": 7, "operators": 5,
 			"first_probes_strictly_inside": 1500, "first_probes_strictly_outside": 1500, "first_probe_kinds": 7,
-			"operator_repeated_point_answers": 30000, "primitive_repeated_point_answers": 30000, "operator_arities": 14, "operator_origin_placement": 2,
+			"operator_repeated_point_answers": 30000, "primitive_repeated_point_answers": 30000, "operator_arities": 14, "operator_origin_placement": 2, "size_decades": 6, "parameter_regimes": 36,
 		},
 		Phases: []run.Phase{
 			{Name: "primitives", Cases: func(tier string) int {
@@ -72,9 +73,38 @@ func genPos(r *rand.Rand, L float64) v3 {
 	case 0:
 		return v3{}
 	case 1, 2:
-		return v3{(2*r.Float64() - 1) * 100, (2*r.Float64() - 1) * 100, (2*r.Float64() - 1) * 100}
+		far := 100 * L // offsets much larger than the solid
+		if L > 1e-2 && L < 1e2 && r.Intn(2) == 0 {
+			far = 100
+		}
+		return v3{(2*r.Float64() - 1) * far, (2*r.Float64() - 1) * far, (2*r.Float64() - 1) * far}
 	}
 	return v3{(2*r.Float64() - 1) * 3 * L, (2*r.Float64() - 1) * 3 * L, (2*r.Float64() - 1) * 3 * L}
+}
+
+// genScale draws the nominal size of a case: half of the cases around 1, half over
+// the decades 1e-9 … 1e9 (sample points and tolerances scale with the solid).
+func genScale(r *rand.Rand) float64 {
+	if r.Intn(2) == 0 {
+		return logU(r, -2, 2)
+	}
+	return logU(r, -9, 9)
+}
+
+// sub draws a parameter as a fraction of L: usually within a decade or two of L,
+// in a third of the draws many decades below it (length ≪ radius, radius ≪ length …).
+func sub(r *rand.Rand, lo, hi, wideLo float64) float64 {
+	if r.Intn(3) == 0 {
+		return logU(r, wideLo, hi)
+	}
+	return logU(r, lo, hi)
+}
+
+// snapTo rounds x to a multiple of a power of two near L/1024, so that dyadic
+// combinations of snapped coordinates are exact.
+func snapTo(x, L float64) float64 {
+	q := math.Ldexp(1, int(math.Floor(math.Log2(L)))-10)
+	return math.Round(x/q) * q
 }
 
 func genShape(r *rand.Rand, kind string, L float64) shape {
@@ -87,13 +117,21 @@ func genShape(r *rand.Rand, kind string, L float64) shape {
 		if r.Intn(3) == 0 {
 			sz[r.Intn(3)] *= 0.02
 		}
+		if r.Intn(4) == 0 { // one or two extents many decades below the others
+			sz[r.Intn(3)] *= logU(r, -6, -1)
+			if r.Intn(2) == 0 {
+				sz[r.Intn(3)] *= logU(r, -6, -1)
+			}
+		}
 		b := box{c: pos, size: sz}
 		if kind == "rounded-box" {
 			b.rounded = true
 			switch r.Intn(10) {
 			case 0:
 				b.round = 0
-			case 1, 2, 3, 4:
+			case 1:
+				b.round = L * logU(r, -7, -1)
+			case 2, 3, 4:
 				b.round = L * 0.1 * r.Float64()
 			default:
 				b.round = L * (0.1 + 0.9*r.Float64())
@@ -101,7 +139,17 @@ func genShape(r *rand.Rand, kind string, L float64) shape {
 		}
 		return b
 	case "capsule":
-		return capsule{a: pos, b: pos.add(randDir(r).mul(L * (0.05 + 1.95*r.Float64()))), r: L * logU(r, -2, 0.2)}
+		// length and radius drawn independently: length ≪ radius … length ≫ radius
+		c := capsule{a: pos, b: pos.add(randDir(r).mul(L * sub(r, -1.3, 0.3, -6))), r: L * sub(r, -2, 0.2, -6)}
+		if r.Intn(5) == 0 {
+			for k := 0; k < 3; k++ {
+				c.a[k], c.b[k] = snapTo(c.a[k], L), snapTo(c.b[k], L)
+			}
+		}
+		if c.a == c.b {
+			c.b[r.Intn(3)] += L
+		}
+		return c
 	case "rounded-cone":
 		var u v3
 		if r.Intn(5) == 0 { // axis-parallel
@@ -109,10 +157,18 @@ func genShape(r *rand.Rand, kind string, L float64) shape {
 		} else {
 			u = randDir(r)
 		}
-		l := L * (0.05 + 1.95*r.Float64())
+		l := L * sub(r, -1.3, 0.3, -4)
 		c := cone{a: pos, b: pos.add(u.mul(l))}
+		if r.Intn(4) == 0 { // end points on a dyadic grid: a + k/8·(b-a) is then exactly on the axis
+			for k := 0; k < 3; k++ {
+				c.a[k], c.b[k] = snapTo(c.a[k], L), snapTo(c.b[k], L)
+			}
+			if c.a == c.b {
+				c.b[r.Intn(3)] += L
+			}
+		}
 		l = c.a.dist(c.b)
-		c.r1 = L * logU(r, -2, 0.3)
+		c.r1 = L * sub(r, -2, 0.3, -5)
 		var diff float64
 		switch r.Intn(10) {
 		case 0:
@@ -138,8 +194,8 @@ func genShape(r *rand.Rand, kind string, L float64) shape {
 		return c
 	case "rounded-cylinder":
 		rad := L * (0.1 + 0.9*r.Float64())
-		top := rad * logU(r, -2, math.Log10(1.9))
-		return rcyl{pos: pos, rad: rad, top: top, bodyHei: L * logU(r, -2, 0.3)}
+		top := rad * sub(r, -2, math.Log10(1.9), -6)
+		return rcyl{pos: pos, rad: rad, top: top, bodyHei: L * sub(r, -2, 0.3, -6)}
 	case "plane":
 		var n v3
 		if r.Intn(4) == 0 {
@@ -152,7 +208,7 @@ func genShape(r *rand.Rand, kind string, L float64) shape {
 		if r.Intn(4) != 0 {
 			h = (2*r.Float64() - 1) * 2 * L
 		}
-		return plane{pos: pos, n: n, height: h}
+		return plane{pos: pos, n: n, height: h, L: L}
 	}
 	panic("unknown kind " + kind)
 }
@@ -268,14 +324,14 @@ func primitiveCase(c *run.Ctx) run.Result {
 	var res run.Result
 	r := c.Rng
 	kind := primKinds[c.Case%len(primKinds)]
-	L := logU(r, -2, 2)
+	L := genScale(r)
 	s := genShape(r, kind, L)
 	if r.Intn(10) < 4 {
 		// move the solid so that the world origin is a decided point of interest
 		// (strictly inside, strictly outside, near the surface, on a branch border)
 		for try := 0; try < 20; try++ {
 			q, _ := samplePoint(r, s)
-			if math.Abs(s.margin(q)) > 1e-6*math.Max(1, math.Max(s.mag(), q.maxAbs())) {
+			if math.Abs(s.margin(q)) > 1e-6*math.Max(s.radius(), math.Max(s.mag(), q.maxAbs())) {
 				s = relocate(s, s.centre().sub(q))
 				break
 			}
@@ -286,7 +342,8 @@ func primitiveCase(c *run.Ctx) run.Result {
 	if p := run.Try(func() { checkPrimitive(r, &res, s, f, site) }); p != nil {
 		res.Violate("runtime-panic", site, kind, fmt.Sprintf("panic: %v at %s", p.Value, p.Site), pointWitness{Shape: kind, Params: s.params()})
 	}
-	res.Sig = kind + "|" + s.regime() + "|L" + mags(L)
+	res.Sig = kind + "|" + s.regime() + "|L" + decade(L)
+	res.SetAdd("size_decades", decade(L))
 	res.SetAdd("primitive_kinds", kind)
 	res.SetAdd("parameter_regimes", kind+":"+s.regime())
 	res.Count("shapes_"+kind, 1)
@@ -298,7 +355,8 @@ func primitiveCase(c *run.Ctx) run.Result {
 
 func checkPrimitive(r *rand.Rand, res *run.Result, s shape, f sample.Vec3ToFloat, site string) {
 	kind := s.kind()
-	base := math.Max(1, s.mag())
+	// all tolerances are relative to the solid's own scale and the magnitudes involved (no absolute floor)
+	base := math.Max(s.radius(), s.mag())
 	nIn, nOut, nSurf, nStraddle := 0, 0, 0, 0
 	eval := func(p v3) (float64, bool) {
 		v := f(pv(p))
@@ -414,7 +472,7 @@ func checkPrimitive(r *rand.Rand, res *run.Result, s shape, f sample.Vec3ToFloat
 			}
 		}
 		tol := 1e-9 * math.Max(base, sp.maxAbs())
-		if math.Abs(s.margin(sp)) > tol*1e-3 {
+		if math.Abs(s.margin(sp)) > tol*1e-2 {
 			continue // bisection did not converge to the surface (never expected)
 		}
 		v, ok := eval(sp)
@@ -517,4 +575,10 @@ func checkPrimitive(r *rand.Rand, res *run.Result, s shape, f sample.Vec3ToFloat
 		}
 	}
 	res.Nontrivial = nIn > 0 && nOut > 0 && nSurf > 0 && nStraddle > 0
+}
+
+// decade buckets the nominal size into three-decade bands.
+func decade(L float64) string {
+	e := int(math.Floor(math.Log10(L)/3)) * 3
+	return fmt.Sprintf("1e%+d", e)
 }
